@@ -51,6 +51,10 @@ type c15Cfg struct {
 	// Stale: the lists the origin serves are past their nextUpdate already (an issuer which is late; what the validator
 	// does with such a list is not the point here - refreshing goes on)
 	Stale bool
+	// Rekeyed: two signers are configured as trusted - the CA certificate and the certificate of its re-keyed successor
+	// (same name, new key). The first list is signed with the old key, the list published later with the new one: it is
+	// a list a configured trusted signer issued, i.e. an acceptable one
+	Rekeyed bool
 }
 
 func (c c15Cfg) String() string {
@@ -79,6 +83,9 @@ func (c c15Cfg) String() string {
 	}
 	if c.Stale {
 		late += " lists-past-their-nextUpdate"
+	}
+	if c.Rekeyed {
+		late += " next-list-signed-by-the-second-trusted-signer"
 	}
 	return fmt.Sprintf("instances=%d intervals=%v phases=%v download=%s script=%q sig=%s background=%v source=%s%s", c.N, c.Intervals, c.Phases, c.Dur, c.Script, sm, c.Background, c.Source, late)
 }
@@ -114,6 +121,9 @@ func c15Run(cfg c15Cfg) (o c15Obs) {
 		}
 		v1 := mkList(1, 801)
 		v2 := mkList(2, 801, 802)
+		if cfg.Rekeyed {
+			v2 = world.SimpleCRL(p.Sibling, 2, 801, 802).DER()
+		}
 		v2badSpec := world.SimpleCRL(p.CA, 3, 801, 802)
 		v2badSpec.BadSig = true
 		v2bad := v2badSpec.DER()
@@ -155,6 +165,9 @@ func c15Run(cfg c15Cfg) (o c15Obs) {
 		}
 		provision := func(i int) {
 			o2 := CWOpt{Disk: false, SigMode: cfg.Sig, Background: cfg.Background, Net: net, Interval: cfg.Intervals[i].String(), Trusted: []*x509.Certificate{p.CA.Cert}}
+			if cfg.Rekeyed {
+				o2.Trusted = append(o2.Trusted, p.Sibling.Cert)
+			}
 			switch cfg.Source {
 			case "crl_urls":
 				o2.URLs = []string{c15URL(i)}
@@ -273,7 +286,11 @@ func c15Run(cfg c15Cfg) (o c15Obs) {
 					checked[i] = true
 					l, ch := leaf(i, 802)
 					if v := w.Lookup(l, ch); !v.Rejected() {
-						o.Viols = append(o.Viols, c14Viol{fmt.Sprintf("C15|new-revocation-not-enforced|source=%s sig=%d background=%v instances=%d", cfg.Source, cfg.Sig, cfg.Background, cfg.N),
+						rk := ""
+						if cfg.Rekeyed {
+							rk = " next-list-signed-by-the-second-trusted-signer"
+						}
+						o.Viols = append(o.Viols, c14Viol{fmt.Sprintf("C15|new-revocation-not-enforced|source=%s sig=%d background=%v instances=%d%s", cfg.Source, cfg.Sig, cfg.Background, cfg.N, rk),
 							fmt.Sprintf("instance %d (interval %s): certificate revoked in the CRL obtainable since %s is still accepted at %s (bound %s)", i, cfg.Intervals[i], publishedAt[i].Sub(start), vsched.Now().Sub(start), B(i))})
 					}
 					vsched.Drain()
@@ -377,6 +394,14 @@ func c15Configs(tier string) []c15Cfg {
 		for _, src := range []string{"crl_urls", "cdp"} {
 			for _, bg := range []bool{false, true} {
 				out = append(out, c15Cfg{N: 1, Intervals: []time.Duration{I}, Script: "", Sig: config.SignatureValidationModeVerify, Background: bg, Source: src, Moved: code})
+			}
+		}
+	}
+	// the CA was re-keyed, both certificates are configured as trusted signers
+	for _, src := range []string{"crl_files", "crl_urls", "cdp"} {
+		for _, bg := range []bool{false, true} {
+			for _, sg := range []config.SignatureValidationMode{config.SignatureValidationModeVerify, config.SignatureValidationModeVerifyLog} {
+				out = append(out, c15Cfg{N: 1, Intervals: []time.Duration{I}, Script: "", Sig: sg, Background: bg, Source: src, Rekeyed: true})
 			}
 		}
 	}
